@@ -1,6 +1,7 @@
 (* C17 — File attributes and modes survive every conversion.  Theorems only; proofs live in Proofs/FileModeP.v *)
 From Coq Require Import List NArith Bool Sorted Strings.Byte.
-From Sftp Require Import Mode.FileMode Proofs.FileModeP.
+From Coq Require Import ZArith.
+From Sftp Require Import Mode.FileMode Mode.LongName Proofs.FileModeP Proofs.CalendarP Proofs.LongNameP.
 Import ListNotations.
 Open Scope N_scope.
 
@@ -92,3 +93,52 @@ Example C17_nonvacuous :
   In o_dir os_types /\ os_mode o_dir 493 2 = N.lor o_dir (N.lor o_setgid 493) /\
   mode_string 17901 = [x64; x72; x77; x78; x72; x2d; x73; x72; x2d; x78]%byte.
 Proof. vm_compute. repeat split; auto. Qed.
+
+(* ---- the whole long name (Mode/LongName.v: runLs column by column) ---- *)
+
+(* every column of the long name reads back as the entry's structured attribute: the mode column (which
+   C17_longname_mode_agrees turns back into the mode word), the link count, the owner and group texts, the size (int64,
+   negative included), the month and day of the modification time, the year-or-clock column and the name (blanks kept) -
+   for every mode word, count, size, time, name, "now", and every owner / group text that is one non-empty word *)
+Theorem C17_longname_columns : forall now e,
+  col_ok (le_uid e) = true -> col_ok (le_gid e) = true ->
+  let p := parse_ls (run_ls now e) in
+  let '(_, m, d) := civil_from_days (le_mtime e / 86400)%Z in
+  lp_mode p = mode_string (le_mode e) /\ lp_links p = Some (le_links e) /\ lp_uid p = le_uid e /\ lp_gid p = le_gid e /\
+  lp_size p = Some (le_size e) /\ lp_month p = month_name m /\ lp_day p = Some (Z.to_N d) /\
+  lp_yt p = year_or_time (le_mtime e) now /\ lp_name p = le_name e.
+Proof. exact run_ls_parses. Qed.
+Print Assumptions C17_longname_columns.
+
+(* the date the long name shows is the day of the modification time: for EVERY day number (no bound), counting the days up
+   to the (year, month, day) the formatter names gives the day number back *)
+Theorem C17_longname_date_is_mtime_day : forall z : Z,
+  let '(y, m, d) := civil_from_days z in
+  (days_from_civil y m d = z /\ 1 <= m <= 12 /\ 1 <= d <= 31)%Z.
+Proof. exact civil_roundtrip. Qed.
+Print Assumptions C17_longname_date_is_mtime_day.
+
+(* and for every modification time the wire can carry (32-bit seconds) it is a date of the calendar: the day does not exceed
+   the month's length in that year (leap years by the Gregorian rule) *)
+Theorem C17_longname_date_valid_on_wire : forall s : Z, (0 <= s < 2 ^ 32)%Z ->
+  let '(y, m, d) := civil_from_days (s / 86400)%Z in
+  (1970 <= y < 2150 /\ 1 <= m <= 12 /\ 1 <= d <= days_in_month y m)%Z.
+Proof. exact civil_valid_wire. Qed.
+Print Assumptions C17_longname_date_valid_on_wire.
+
+(* the clock column: hours and minutes of the second of the day *)
+Theorem C17_longname_clock : forall s : Z,
+  let sod := (s mod 86400)%Z in
+  let hh := (sod / 3600)%Z in let mm := ((sod mod 3600) / 60)%Z in
+  (0 <= hh < 24 /\ 0 <= mm < 60 /\ (s / 86400) * 86400 + hh * 3600 + mm * 60 + s mod 60 = s)%Z.
+Proof. exact clock_exact. Qed.
+Print Assumptions C17_longname_clock.
+
+(* non-vacuity: a concrete entry, and the line the model gives for it *)
+Example C17_longname_example :
+  let e := {| le_mode := 16877; le_links := 12; le_uid := ["0"%byte]; le_gid := ["4"%byte; "2"%byte]; le_size := (-5)%Z;
+              le_mtime := 1785000000%Z; le_name := ["a"%byte; " "%byte; "b"%byte] |} in
+  col_ok (le_uid e) = true /\ col_ok (le_gid e) = true /\
+  lp_size (parse_ls (run_ls 1790000000%Z e)) = Some (-5)%Z /\ lp_day (parse_ls (run_ls 1790000000%Z e)) = Some 25 /\
+  shows_year 1500000000%Z 1790000000%Z = true /\ shows_year 1785000000%Z 1790000000%Z = false.
+Proof. vm_compute. repeat split; reflexivity. Qed.
